@@ -49,8 +49,19 @@ GRAPHS: Dict[str, Dict[str, List[str]]] = {
 DEEP = "chain16"
 GRAPHS[DEEP] = {("root.yaml" if i == 0 else (f"sub/d{i}.yaml" if i % 2 else f"d{i}.yaml")):
                 ([("../" if i % 2 else "") + (f"sub/d{i + 1}.yaml" if (i + 1) % 2 else f"d{i + 1}.yaml")] if i < 15 else []) for i in range(16)}
-KINDS = ("constant", "string", "alias", "struct", "message", "signal")
-SECTION = {"constant": "constants", "string": "string_constants", "alias": "aliases", "struct": "struct_defs",
+# a project that (as older ones do) lists the core definition files itself, in the root file and in an imported file, while the
+# automatic core import is in force: a file reached twice is read once, nothing conflicts
+def _core_file(name: str) -> str:
+    import pyrtma
+
+    return os.path.join(os.path.dirname(os.path.abspath(pyrtma.__file__)), "core_defs", name)
+
+
+COREIMP = "coreimport"
+GRAPHS[COREIMP] = {"root.yaml": [_core_file("core_defs.yaml"), "a.yaml", "sub/c.yaml"], "a.yaml": [_core_file("data_logger.yaml")],
+                   "sub/c.yaml": [_core_file("quick_logger.yaml"), "../a.yaml"]}
+KINDS = ("constant", "string", "alias", "alias2", "struct", "message", "signal")  # alias2: an alias whose target is another alias
+SECTION = {"constant": "constants", "string": "string_constants", "alias": "aliases", "alias2": "aliases", "struct": "struct_defs",
            "message": "message_defs", "signal": "message_defs"}
 
 
@@ -64,7 +75,8 @@ def reachable(g: Dict[str, List[str]]) -> List[str]:
         seen.append(f)
         base = os.path.dirname(f)
         for imp in g.get(f, []):
-            todo.append(os.path.normpath(os.path.join(base, imp)))
+            if not os.path.isabs(imp):  # (absolute entries name the core definition files of the package: not ours to write)
+                todo.append(os.path.normpath(os.path.join(base, imp)))
     return seen
 
 
@@ -75,6 +87,8 @@ def item_lines(kind: str, name: str, mid: int) -> List[str]:
         return [f'  {name}: "txt"']
     if kind == "alias":
         return [f"  {name}: int32"]
+    if kind == "alias2":
+        return [f"  BASE_AL_{mid}: int16", f"  {name}: BASE_AL_{mid}"]
     if kind == "struct":
         return [f"  {name}:", "    fields:", "      a: int32"]
     if kind == "message":
@@ -126,7 +140,15 @@ class Files:
 
 def cases(tier: str) -> List[Dict[str, Any]]:
     out = []
-    graphs = [g for g in GRAPHS if g != DEEP]
+    graphs = [g for g in GRAPHS if g not in (DEEP, COREIMP)]
+    cfiles = reachable(GRAPHS[COREIMP])
+    for core_on in (True, False):
+        for f in cfiles if core_on else ():  # (the registry expectation knows the core items only with the automatic import on)
+            out.append(dict(cls="free", graph=COREIMP, core=core_on, placement=[f], k=1))
+            out.append(dict(cls="free", graph=COREIMP, core=core_on, placement=[f, cfiles[-1]], k=2))
+        for (f1, f2) in itertools.product(cfiles, repeat=2):
+            out.append(dict(cls="name", graph=COREIMP, core=core_on, items=[("struct", "DUP", 2001, f1), ("message", "DUP", 2002, f2)]))
+            out.append(dict(cls="msgid", graph=COREIMP, core=core_on, forms=[("signal", f1), ("rto", f2)]))
     dfiles = reachable(GRAPHS[DEEP])
     dpairs = [(a, b) for a in (dfiles[0], dfiles[9], dfiles[10], dfiles[11], dfiles[12], dfiles[-1]) for b in (dfiles[0], dfiles[5], dfiles[11], dfiles[-1])]
     for (f1, f2) in dpairs:
